@@ -325,6 +325,51 @@ def paired_chunk(ctx, config, rows, g, tot):
     tot["distinct_byte_offsets_of_a_b_result"] = [len(x) for x in seen]
 
 
+def alias_runs(ctx, facts, config):
+    """Placement includes ALIASING: two `&[T]` arguments may be the same memory.  Every two-input export is called on (a, copy of
+    a) and on (a, a) - the same contents, one buffer - and must print the same line (bit for bit, NaN sign and payload
+    included).  Value classes with NaN / infinities / huge magnitudes: on ordinary data a shortcut taken for `ptr::eq(a, b)`
+    returns what the formula returns anyway."""
+    rows = [(i, e) for i, e in exprun.select(facts, config) if exprun.KIND[e["macro"]] in ("Dist", "Vert")]
+    if not rows:
+        return
+    ok, log = harness_build.build_cfh(config)
+    if not ok:
+        ctx.broke("correspondence", "C08 alias runs: build (%s)" % config, log[-1500:])
+        return
+    g = exprun.Gen(ctx.seed * 1000003 + 818 + (0 if config == "stable" else 1))
+    sep, ali, meta = [], [], []
+    for idx, e in rows:
+        L = exprun.lanes(e)
+        kind = exprun.KIND[e["macro"]]
+        for n in sorted({1, 3, L, L + 1, 8 * L + 3}):
+            for cls in ("random", "special", "specialnan"):
+                a = g.vec(e["ty"], n, cls, nonzero="div" in e["op"])
+                r = g.vec(e["ty"], n, "random") if kind == "Vert" else []
+                sep.append(exprun.case_line(idx, e, "a", None, False, "R+b", 0, a, a, r))
+                ali.append(exprun.case_line(idx, e, "a", None, False, "R+be", 0, a, a, r))
+                meta.append((e, n, cls))
+    o1 = runner.impl("exp", sep, config=config)
+    o2 = runner.impl("exp", ali, config=config)
+    bad = {}
+    for c1, c2, m, x, y in zip(sep, ali, meta, o1, o2):
+        if x != y:
+            e, n, cls = m
+            bad[e["xany"]] = bad.get(e["xany"], 0) + 1
+            if bad[e["xany"]] > 1 or len(bad) > 4:
+                continue
+            ctx.violation("alias:%s" % e["xany"],
+                          "%s (n=%d, %s data, %s build): called with b = a copy of a it prints `%s`, called with b = the SAME memory as "
+                          "a it prints `%s`: the result depends on where the arguments are placed" % (
+                              e["xany"], n, cls, config, (x or "<crashed>")[:80], (y or "<crashed>")[:80]),
+                          {"kind": "input", "build": config, "case_separate": "exp " + c1[:3000], "case_aliased": "exp " + c2[:3000],
+                           "observed_separate": x, "observed_aliased": y})
+    ctx.cover(2 * len(sep), distinct_keys=["alias|%s|%d" % (config, hash(c)) for c in sep],
+              rule="aliasing: every two-input export (%s build) on (a, copy of a) and on (a, a): identical output lines" % config,
+              dist={"alias_pairs_" + config: len(sep)})
+    ctx.extra.setdefault("alias_runs", {})[config] = {"pairs": len(sep), "routines_differing": len(bad)}
+
+
 def history_runs(ctx, facts, config):
     """Earlier calls: the SAME documented safe calls (xany and xconst::<D> for several D, every routine) issued in ONE
     process in three different orders - as generated (D ascending), reversed (D descending), and a seeded shuffle.  Every
@@ -404,6 +449,8 @@ def run(ctx):
     symrun.run(ctx)
     for config in ("stable", "nightly"):
         paired_runs(ctx, facts, config)
+    for config in ("stable", "nightly"):
+        alias_runs(ctx, facts, config)
     facts2 = ctx.translate(steps=("tables", "dispatch"))
     for config in ("stable", "nightly"):
         history_runs(ctx, facts2, config)
